@@ -262,7 +262,7 @@ def plan_C18(ctx):
 
 # ----------------------------------------------------------------------------- schema: C07 C08 C09 C10
 SCHEMA_RULE = ("A: every history of <= MaxLen public mutator calls of RSForm generated by TLC from Schema.tla (Gen_Schema presets: "
-               "'ids' all operations with colliding / ill-formed aliases and identifiers; 'deps' definitions creating, breaking and "
+               "'ids' all operations with colliding / ill-formed aliases and identifiers, incl. bulk insertion of two or three records that mention each other (both bulk overloads); 'deps' definitions creating, breaking and "
                "cycling dependencies; 'kinds' every constituent kind incl. functions, calls, axioms, structures, ill-typed / unparsable / "
                "dangling definitions; 'names' renamings with prefix names, chains and mentions in definitions, conventions, references; "
                "'texts' X1, D1, D2 created by script, then every sequence of SetTerm / SetText / SetAlias-with-substitution / Erase that builds, re-points, renames and "
